@@ -403,8 +403,10 @@ impl QosPolicies {
     // AND offered lease_duration <= requested lease_duration
     //
     // See Ord implementation on Liveliness.
+    // Both conditions must hold separately, so a single (total) order on
+    // Liveliness cannot express this.
     if let (Some(off), Some(req)) = (self.liveliness, other.liveliness) {
-      if off < req {
+      if off.kind_num() < req.kind_num() || off.duration() > req.duration() {
         return Some(QosPolicyId::Liveliness);
       }
     }
@@ -785,7 +787,7 @@ pub mod policy {
   }
 
   impl Liveliness {
-    fn kind_num(&self) -> i32 {
+    pub(crate) fn kind_num(&self) -> i32 {
       match self {
         Self::Automatic { .. } => 0,
         Self::ManualByParticipant { .. } => 1,
@@ -806,7 +808,7 @@ pub mod policy {
     fn cmp(&self, other: &Self) -> Ordering {
       // Manual liveliness is greater than automatic, but
       // duration compares in reverse
-      other
+      self
         .kind_num()
         .cmp(&other.kind_num())
         .then_with(|| self.duration().cmp(&other.duration()).reverse())
